@@ -275,6 +275,44 @@ def sendGroup (jobs : List UdpJob) : List Datagram :=
   let (d, hdrs, iovs) := sendGroupArm jobs
   d ++ List.zipWith (fun h b => ({ dest := h.1, ctl := h.2, body := b } : Datagram)) hdrs iovs
 
+/-- what the kernel may do with one `sendmmsg` call -/
+inductive TxAns
+  | sent (n : Nat)   -- n ≥ 1 of the armed messages went out (a partial send when fewer than asked)
+  | refused          -- EPERM & co.: the engine sends the unsent rest directly, job by job
+  | retired          -- ENOSYS / EOPNOTSUPP: as refused, and batched TX is retired for good
+deriving Repr, DecidableEq
+
+/-- `sendDirect`: the job's own staged bytes to the job's own peer -/
+def UdpJob.direct (j : UdpJob) : Datagram :=
+  { dest := j.raddr, ctl := j.pktinfo.take j.pktinfoLen, body := j.tx.take j.txLen }
+
+/-- the retry loop of `sendGroup` over the armed jobs (`done += sent`; on a
+refusal the rest goes out directly). Returns the datagrams, the unused plan,
+and whether batched TX was retired. With the plan used up the kernel sends
+everything it is handed. -/
+def sendArmed : Nat → List TxAns → List UdpJob → List Datagram × List TxAns × Bool
+  | 0, plan, armed => (armed.map fun j => j.datagram (j.tx.take j.txLen), plan, false)
+  | _, plan, [] => ([], plan, false)
+  | _, [], armed => (armed.map fun j => j.datagram (j.tx.take j.txLen), [], false)
+  | fuel + 1, .sent n :: plan, armed =>
+    let n := if n = 0 then 1 else n
+    let (o, plan', r) := sendArmed fuel plan (armed.drop n)
+    ((armed.take n).map (fun j => j.datagram (j.tx.take j.txLen)) ++ o, plan', r)
+  | _, .refused :: plan, armed => (armed.map UdpJob.direct, plan, false)
+  | _, .retired :: plan, armed => (armed.map UdpJob.direct, plan, true)
+
+/-- `sendGroup` with a scripted kernel: jobs without a reply are skipped,
+portable-read jobs (and every job once TX is retired) are sent directly, the
+others are armed and sent by `sendArmed` -/
+def sendGroupPlan (retired : Bool) (plan : List TxAns) (jobs : List UdpJob) : List Datagram × List TxAns × Bool :=
+  let live := jobs.filter fun j => j.txLen != 0
+  if retired then (live.map UdpJob.direct, plan, true)
+  else
+    let direct := (live.filter fun j => j.rawSALen == 0).map UdpJob.direct
+    let armed := live.filter fun j => j.rawSALen != 0
+    let (o, plan', r) := sendArmed (armed.length + 1) plan armed
+    (direct ++ o, plan', r)
+
 /-- a recycled slab as the cache hands it out: the lengths and flags
 `release` owns are clear, everything else is whatever the previous occupant
 left. -/
